@@ -12,6 +12,10 @@ from .e3_interp import (Interp as _Base, Raised, PathLimit, exc_matches, join_va
                         REL_KEYS, TD_KEYS, DT_RANGES, MAX_DEPTH)
 
 
+# datetime.timedelta(**{unit: n}) raises OverflowError in the constructor beyond these magnitudes
+TD_CTOR_LIMIT = {"days": 999999999, "weeks": 142857142, "hours": 23999999976, "minutes": 1439999998560,
+                 "seconds": 86399999913600}
+
 class Interp(_Base):
     def __init__(self, ctx):
         super().__init__(ctx)
@@ -787,7 +791,22 @@ class Interp(_Base):
         if name == "relativedelta":
             return R(self._mk_rd(st, args, kwargs, node, "relativedelta"))
         if name == "timedelta":
-            return R(self._mk_rd(st, args, kwargs, node, "timedelta"))
+            v_ = self._mk_rd(st, args, kwargs, node, "timedelta")
+            if isinstance(v_, RDV):
+                # unlike relativedelta, datetime.timedelta normalises in its constructor and raises
+                # OverflowError there when the total exceeds 999999999 days
+                for k_, x_ in v_.rel.items():
+                    lim_ = TD_CTOR_LIMIT.get(k_)
+                    if lim_ is not None and isinstance(x_, IntV) and (abs(x_.lo) > lim_ or abs(x_.hi) > lim_):
+                        bad_ = self.raised("datetime-overflow", "OverflowError", node,
+                                           "timedelta({}={}) exceeds the representable range in its "
+                                           "constructor".format(k_, x_))
+                        s2_ = st.fork()
+                        self.tick()
+                        rel2_ = dict(v_.rel)
+                        rel2_[k_] = IntV(max(x_.lo, -lim_), min(x_.hi, lim_), x_.sym)
+                        return [(st, RDV(v_.abs, rel2_, sym=v_.sym)), (s2_, bad_)]
+            return R(v_)
         if name == "rrule":
             self.site_counter += 1
             for k in ("bymonthday", "byweekday", "bymonth"):
